@@ -82,9 +82,53 @@ def cstr(s):
 
 
 # --------------------------------------------------------------------------- context
+def _norm_hash(path):
+    """hash of a Python file's AST with docstrings removed (comments / layout / docstrings do not count)"""
+    import ast
+    try:
+        tree = ast.parse(open(path).read())
+    except (OSError, SyntaxError) as e:
+        return "unreadable:%s" % type(e).__name__
+    for node in ast.walk(tree):
+        body = getattr(node, "body", None)
+        if isinstance(body, list) and body and isinstance(body[0], ast.Expr) and \
+                isinstance(getattr(body[0], "value", None), ast.Constant) and isinstance(body[0].value.value, str):
+            node.body = body[1:] or [ast.Pass()]
+    return hashlib.sha1(ast.dump(tree).encode()).hexdigest()
+
+
+SRC_BASELINE = os.path.join(VERIF, "harness", "src_baseline.json")
+
+
+def source_hashes(repo):
+    out = {}
+    root = os.path.join(repo, "taskiq")
+    for dp, _dn, fns in os.walk(root):
+        for fn in fns:
+            if fn.endswith(".py"):
+                full = os.path.join(dp, fn)
+                out[os.path.relpath(full, repo)] = _norm_hash(full)
+    return out
+
+
+def changed_sources():
+    """files under taskiq/ whose code differs from the tree the models were last validated against
+    (harness/src_baseline.json, regenerated with ./check --baseline after every commit to /repo)"""
+    try:
+        base = json.load(open(SRC_BASELINE))
+    except (OSError, ValueError):
+        return []
+    cur = source_hashes(REPO)
+    return sorted(f for f in set(base) | set(cur) if base.get(f) != cur.get(f))
+
+
 class Ctx:
     def __init__(self, pid, tier, seed, replay=None):
         self.pid, self.tier, self.seed, self.replay = pid, tier, seed, replay
+        # change-aware effort: when the code under taskiq/ is not the code the models were last validated against,
+        # the quick tier explores BOOST times as many cases (never an alarm by itself)
+        self.changed = changed_sources()
+        self.boost = int(os.environ.get("VERIF_BOOST", "4")) if self.changed else 1
         self.rng = random.Random("%s/%d" % (pid, seed))
         self.dir = os.path.join(BUILD, pid if REPO == "/repo" else "%s-%s" % (pid, chash_s(REPO)))
         shutil.rmtree(self.dir, ignore_errors=True)
@@ -93,7 +137,7 @@ class Ctx:
         self.quick = tier == "quick"
 
     def n(self, quick, thorough):
-        return quick if self.quick else thorough
+        return min(max(quick, thorough), quick * self.boost) if self.quick else thorough
 
     def sub_rng(self, tag):
         return random.Random("%s/%d/%s" % (self.pid, self.seed, tag))
@@ -475,6 +519,8 @@ class Report:
             exhaustive=self.exhaustive,
         )
         cov.update(self.extra)
+        cov["source_changed_since_models_validated"] = ctx.changed[:50]
+        cov["search_budget_factor"] = ctx.boost
         ev = dict(property_id=ctx.pid, tier=ctx.tier, seed=ctx.seed, level="proof", coverage=cov,
                   assumptions=meta.get("assumptions", []) + self.assumptions,
                   wall_s=round(time.time() - ctx.t0, 2), violations=violations)
